@@ -26,9 +26,12 @@ VARIABLES rows,       \* id -> [status, retry, upd]   (absent ids: not stored / 
           sent,       \* ids already emitted by the engine
           now,
           lastDeliv,  \* deliveries made by the last step: sequence of [id, retry]
-          lastOp
+          lastOp,
+          acted       \* acts a client action has closed; when all are, the process ends and its
+                      \* final message (workflow completed, number N+1) goes to the channel
 
-avars == <<rows, sent, now, lastDeliv, lastOp>>
+avars == <<rows, sent, now, lastDeliv, lastOp, acted>>
+Final == Cardinality(Ids) + 1
 
 Stored == DOMAIN rows
 
@@ -52,7 +55,7 @@ Emit(id) ==
   /\ rows' = (id :> [status |-> "created", retry |-> 0, upd |-> -1]) @@ rows
   /\ lastDeliv' = <<[id |-> id, retry |-> 0]>>
   /\ lastOp' = [op |-> "Emit", id |-> id]
-  /\ UNCHANGED now
+  /\ UNCHANGED <<now, acted>>
 
 (* runtime.rs:262-273 + cache/store.rs:128-160; rows are visited in id order  *)
 RECURSIVE TickRows(_, _, _)
@@ -73,29 +76,37 @@ Tick ==
      IN /\ rows' = r.R
         /\ lastDeliv' = r.D
   /\ lastOp' = [op |-> "Tick", id |-> 0]
-  /\ UNCHANGED <<sent, now>>
+  /\ UNCHANGED <<sent, now, acted>>
 
 Ack(id) ==                              \* Runtime::ack -> set_message(id, Acked)
   /\ id \in sent
   /\ rows' = IF id \in Stored THEN [rows EXCEPT ![id].status = "acked", ![id].upd = now] ELSE rows
   /\ lastDeliv' = <<>> /\ lastOp' = [op |-> "Ack", id |-> id]
-  /\ UNCHANGED <<sent, now>>
+  /\ UNCHANGED <<sent, now, acted>>
 
 (* an action on the task of message id: set_message_with(pid, tid, Completed) *)
 (* (task.rs:584-591); every message here has the same pid and its own tid     *)
 ActOn(id) ==
-  /\ id \in sent
-  /\ LET hit == QueryAnd(<< Stored, { x \in Stored : x = id } >>) IN
-     rows' = [x \in Stored |-> IF x \in hit THEN [rows[x] EXCEPT !.status = "completed", !.upd = now]
-                               ELSE rows[x]]
-  /\ lastDeliv' = <<>> /\ lastOp' = [op |-> "ActOn", id |-> id]
-  /\ UNCHANGED <<sent, now>>
+  /\ id \in (sent \cap Ids) \ acted
+  /\ acted' = acted \cup {id}
+  /\ LET hit == QueryAnd(<< Stored, { x \in Stored : x = id } >>)
+         R1 == [x \in Stored |-> IF x \in hit THEN [rows[x] EXCEPT !.status = "completed", !.upd = now]
+                                 ELSE rows[x]]
+     IN IF acted \cup {id} = Ids
+        \* the last open act: the process ends; its final message is stored and handed over
+        \* like any other, and nothing is running any more when the next ticks come
+        THEN /\ rows' = (Final :> [status |-> "created", retry |-> 0, upd |-> -1]) @@ R1
+             /\ sent' = sent \cup {Final}
+             /\ lastDeliv' = <<[id |-> Final, retry |-> 0]>>
+        ELSE /\ rows' = R1 /\ sent' = sent /\ lastDeliv' = <<>>
+  /\ lastOp' = [op |-> "ActOn", id |-> id]
+  /\ UNCHANGED now
 
 Redo ==                                 \* resend_error_messages
   /\ rows' = [x \in Stored |-> IF rows[x].status = "error"
                                THEN [status |-> "created", retry |-> 0, upd |-> now] ELSE rows[x]]
   /\ lastDeliv' = <<>> /\ lastOp' = [op |-> "Redo", id |-> 0]
-  /\ UNCHANGED <<sent, now>>
+  /\ UNCHANGED <<sent, now, acted>>
 
 (* clear_error_messages(Some(pid)) / (None); all messages belong to the one pid *)
 Clear(withPid) ==
@@ -103,19 +114,21 @@ Clear(withPid) ==
          hit == IF withPid THEN QueryAnd(<<errs, Stored>>) ELSE errs
      IN rows' = [x \in Stored \ hit |-> rows[x]]
   /\ lastDeliv' = <<>> /\ lastOp' = [op |-> IF withPid THEN "ClearPid" ELSE "ClearAll", id |-> 0]
-  /\ UNCHANGED <<sent, now>>
+  /\ UNCHANGED <<sent, now, acted>>
 
 Advance(d) ==
   /\ now + d <= MaxTime
   /\ now' = now + d
   /\ lastDeliv' = <<>> /\ lastOp' = [op |-> "Advance", id |-> d]
-  /\ UNCHANGED <<rows, sent>>
+  /\ UNCHANGED <<rows, sent, acted>>
 
 Init ==
   /\ rows = <<>> /\ sent = {} /\ now = 0 /\ lastDeliv = <<>> /\ lastOp = [op |-> "Init", id |-> 0]
+  /\ acted = {}
 
 Next ==
   \/ \E id \in Ids : Emit(id) \/ Ack(id) \/ ActOn(id)
+  \/ Ack(Final)
   \/ Tick \/ Redo \/ Clear(TRUE) \/ Clear(FALSE)
   \/ \E d \in {1, Interval + 1} : Advance(d)
 
